@@ -30,7 +30,7 @@ def plan(tier, seed):
         for s in range(0, len(seqs), BATCH):
             recipes.append({"k": "derivs", "ctx": ctx, "seqs": seqs[s:s + BATCH], "render": "min", "seed": seed + s,
                             "style": ["single", "minimal", "random"][(s // BATCH) % 3]})
-    pseqs = [list(s) for s in cases.deriv_sequences(2 if tier == "quick" else 3, 11) if any(i >= 8 for i in s)]
+    pseqs = [list(s) for s in cases.deriv_sequences(2 if tier == "quick" else 3, 12) if any(i >= 8 for i in s)]
     for s in range(0, len(pseqs), BATCH):
         recipes.append({"k": "derivs", "ctx": "param", "seqs": pseqs[s:s + BATCH], "render": "min", "seed": seed + s})
     nrand = 600 if tier == "quick" else 4000
